@@ -1,0 +1,23 @@
+//go:build verif
+
+package sync
+
+import (
+	"bytes"
+
+	"github.com/jsightapi/jsight-schema-core/verifhook"
+)
+
+const hooked = true
+
+func poolHook(ev string, p *BufferPool, b *bytes.Buffer) {
+	if h := verifhook.Pool; h != nil {
+		h(ev, p, b)
+	}
+}
+
+func onceHook(ev string, o any) {
+	if h := verifhook.Once; h != nil {
+		h(ev, o)
+	}
+}
